@@ -18,8 +18,13 @@ pub struct Txid(pub u64);
 pub struct Locator(pub u64);
 #[derive(Clone, Copy, PartialEq, Eq, Hash, Debug)]
 pub struct UUID(pub u64);
-#[derive(Clone, Copy, PartialEq, Eq, Hash, Debug)]
+#[derive(Clone, Copy, Eq, Hash, Debug)]
 pub struct UserId(pub PublicKey);
+impl vstd::std_specs::cmp::PartialEqSpecImpl for UserId {
+    open spec fn obeys_eq_spec() -> bool { true }
+    open spec fn eq_spec(&self, other: &UserId) -> bool { *self == *other }
+}
+impl PartialEq for UserId { fn eq(&self, other: &Self) -> bool { self.0 == other.0 } }
 #[derive(Clone, Copy)]
 pub struct Header { pub h: BlockHash }
 impl Header {
